@@ -88,6 +88,20 @@ def cases(tier, seed):
     # two types of one name whose (name, hash) identifiers coincide, one of them with a bytes field
     KB1 = rs("j/k", [["string", "abytesb"]], ["'txt'"])
     KB2 = rs("j/k", [["bytes", "a"], ["string", "b"]], ["b'\\x00\\xff'", "'vb'"])
+    # a field that is boolean in one version of a type and an integer in the other (same type name): A, B, A orders
+    BV1 = rs("j/bv", [["boolean", "start"], ["string", "s"]], ["True", "'x'"])
+    BV2 = rs("j/bv", [["varint", "start"], ["string", "s"]], ["3", "'y'"])
+    BV3 = rs("j/bv", [["string", "s"], ["uint16", "start"]], ["'z'", "0"])
+    for kk in (2, 3, 4):
+        for seq in itertools.product(["BV1", "BV2", "BV3"], repeat=kk):
+            if len(set(seq)) > 1:
+                yield {"kind": "seq", "t": "seq", "shape": list(seq), "records": [{"BV1": BV1, "BV2": BV2, "BV3": BV3}[x] for x in seq]}
+    for kk in (2, 3, 4, 6):
+        for seq in itertools.product(["A", "B", "BV1"], repeat=kk) if kk < 6 else [("A", "B") * 3, ("A", "A", "B", "B", "A", "B")]:
+            for nw in (2, 3):
+                for close in ("fwd", "rev"):
+                    yield {"kind": "two-writers", "t": "two-writers", "writers": nw, "close": close, "flush": kk % 2 == 0, "shape": list(seq),
+                           "records": [{"A": A, "B": B, "BV1": BV1}[x] for x in seq]}
     shapes = {"A": A, "A2": A2, "B": B, "N1": N1, "N2": N2, "N3": N3, "JB": JB, "JO": JO, "EMPTY": EMPTY, "KB1": KB1, "KB2": KB2}
     for k in ((1, 2, 3, 4) if tier == "thorough" else (1, 2, 3)):
         for seq in itertools.product(shapes, repeat=k):
@@ -288,9 +302,61 @@ def produce(channel, records, descriptors, indent):
         return f.read(), path
 
 
+def run_two_writers(case):
+    """Two (three) JSON writers alive at once, fed alternately, closed in either order: every file holds exactly its own records."""
+    import os
+
+    from flow.record import RecordReader, RecordWriter
+
+    h = jhash(case)
+    records = [recs.build_record(r) for r in case["records"]]
+    k = case["writers"]
+    d = os.environ["VERIF_SCRATCH"]
+    _tw[0] += 1
+    paths = [os.path.join(d, "c14tw-%d-%d-%d.json" % (os.getpid(), _tw[0], i)) for i in range(k)]
+    viol = []
+    try:
+        ws = [RecordWriter(p if i != 1 else "jsonfile://" + p + "?descriptors=false") for i, p in enumerate(paths)]
+        for i, r in enumerate(records):
+            ws[i % k].write(r)
+        order = range(k) if case["close"] == "fwd" else range(k - 1, -1, -1)
+        for i in order:
+            if case.get("flush"):
+                ws[i].flush()
+            ws[i].close()
+        for i, p in enumerate(paths):
+            mine = [r for j, r in enumerate(records) if j % k == i]
+            docs = [json.loads(ln) for ln in open(p, encoding="utf-8") if ln.strip()]
+            recdocs = [dd for dd in docs if not (isinstance(dd, dict) and dd.get("_type") == "recorddescriptor")]
+            if len(recdocs) != len(mine):
+                viol.append(("C14:two-writers:file-holds-other-documents", case, {"file": i, "record_documents": len(recdocs), "written_to_it": len(mine)}))
+                continue
+            if i != 1:
+                rd = RecordReader(p)
+                got = list(rd)
+                rd.close()
+                dif = recs.list_diff(obs_list(mine), obs_list(got))
+                if dif:
+                    viol.append(("C14:two-writers:roundtrip:%s" % dif[3], case, {"file": i, "index": dif[0]}))
+    except Exception as e:  # noqa: BLE001
+        viol.append(("C14:two-writers:raises-%s" % type(e).__name__, case, {"error": repr(e)[:200]}))
+    finally:
+        for p in paths:
+            try:
+                os.unlink(p)
+            except OSError:
+                pass
+    return {"ev": k, "h": h, "nt": True, "out": ["two-writers:%s" % ("ok" if not viol else "bad")], "viol": viol}
+
+
+_tw = [0]
+
+
 def run_case(case):
     from flow.record import GroupedRecord, RecordReader
 
+    if case.get("kind") == "two-writers":
+        return run_two_writers(case)
     h = jhash(case)
     if case.get("gen"):
         from mc import streamspace
